@@ -138,26 +138,59 @@ def run_case(ctx):
             import shutil
             from ..choice import RandomSource
             sub = RandomSource(src.draw("hist.seed", 0, 9999))
+            elsewhere = src.flag("hist.elsewhere", 3)
+            if elsewhere:
+                # ... or in ANOTHER run directory, everything named relatively, under FORK pools: workers that
+                # outlive the first combine keep the directory they were started in
+                t.opts["in_form"] = "rel"
+                if t.opts.get("out") == "abs":
+                    t.opts["out"] = "rel"
+                ctx.fork_mode = True
+                ctx.probe("history.elsewhere")
+            root_h = os.path.join(ctx.scratch, "run_earlier") if elsewhere else root
             t2 = copy.copy(t)
             t2.opts = dict(t.opts)
             t2.m1, t2.m2 = t.m1.copy_meta(), t.m2.copy_meta()
             for mm, tg in ((t2.m1, "a"), (t2.m2, "b")):
                 world.gen_layout(sub, mm, tag=tg)
                 world.fill_random(mm, sub.draw(tg + ".data", 0, 999999))
-            t2.prepare_root(root)
+            t2.prepare_root(root_h)
             try:
-                t2.call(ctx, root)
+                t2.call(ctx, root_h)
             except Exception:
                 pass
-            if src.flag("hist.keep_output"):
+            if elsewhere:
+                pass
+            elif src.flag("hist.keep_output"):
                 # ... and its OUTPUT is still there: the new result is written over it
                 shutil.rmtree(os.path.join(root, "data"))
                 ctx.probe("history.output_preexisting")
             else:
                 shutil.rmtree(root)
             ctx.probe("history.same-path")
-        t.prepare_root(root)
-        o = t.call(ctx, root)
+        inputs = t.prepare_root(root)
+        if src.flag("read_fault", 8):
+            # fault-injecting configuration (apart from the fault-free runs): one binary file of one input
+            # becomes unreadable part-way.  combine may fail; if it returns normally its output is judged below
+            # like any other (what it read short must not end up in the result)
+            k = src.draw("read_fault.input", 0, 1)
+            plan, fdesc = common.draw_read_fault(src, (t.m1, t.m2)[k], inputs[k], tag="read_fault",
+                                                 max_level=getattr(t, "limit", None))
+            ctx.read_fault_paths = plan
+            nf0 = len(ctx.faults_fired)
+            try:
+                o = t.call(ctx, root)
+            finally:
+                ctx.read_fault_paths = {}
+            if len(ctx.faults_fired) > nf0:
+                ctx.probe("read_fault_fired")
+                if not o.ok:
+                    ctx.probe("read_fault_reported")
+                    ctx.nontrivial = True
+                    ctx.case_key = common.key_of(["read-fault", fdesc, t.describe()])
+                    return
+        else:
+            o = t.call(ctx, root)
     lay = t.layout_rel
     sig = {**sig, "layout_rel": lay, "mono": bool(t.m1.is_monotone() and t.m2.is_monotone())}
     f1, f2 = t.fields_expected()
